@@ -5,7 +5,7 @@ usage: tools/try_seeded.py C04 [a b ...]   (inputs in /tmp/wt/out/<ID>/<k>/, res
 Never leaves /repo modified (git checkout -- . afterwards)."""
 import json, os, re, shutil, subprocess, sys
 
-SRC = "/tmp/wt/out"
+SRC = os.path.join(os.path.dirname(os.path.dirname(os.path.abspath(__file__))), "seeded", "_inbox")
 ROOT = os.path.dirname(os.path.dirname(os.path.abspath(__file__)))
 BASE = "cd /repo && /venv/bin/python -m pytest -q -p no:cacheprovider --timeout=900 --continue-on-collection-errors -x --co -q >/dev/null"
 
